@@ -112,8 +112,7 @@ def check_run(rep, r, pc, stab, crit):
         else:
             bad = [e for e in pre if e.fam is None]
             if bad:
-                rep.inconclusive('C01.R2', bad[0].where, 'validity family %s not found and a constraint could not be normalised [%s]' % (k, cfg),
-                                 got=bad[0].err, loc=bad[0].loc)
+                lpfacts.report_unnormalised(rep, 'C01.R2', bad[0], 'validity family %s not found and a constraint could not be normalised [%s]' % (k, cfg), '[%s]' % cfg)
             else:
                 rep.fail('C01.R2', where_run, 'validity family %s is present [%s]' % (k, cfg), got='absent', want=ref.text(),
                          construct='%s absent' % k)
